@@ -301,8 +301,20 @@ type historyCase struct {
 func drawHistory(rt *rapid.T, rec *core.Recorder, env *gen.Env) *historyCase {
 	hc := &historyCase{}
 	n := rapid.IntRange(2, 6).Draw(rt, "npool")
+	// one pool in three is built from a single checker family (multi-file packages): the same
+	// checker then sees its own subject in consecutive files and packages
+	family := ""
+	if rapid.IntRange(0, 2).Draw(rt, "focusedPool") == 0 {
+		family = gen.Kernels[rapid.IntRange(0, len(gen.Kernels)-1).Draw(rt, "poolFamily")].Checker
+	}
 	for i := 0; i < n; i++ {
-		_, pc := gen.DrawProgram(rt, env, gen.DrawOpts{MaxMuts: 2}, rejectCounter(rec))
+		var pc *gen.ProgCase
+		if family != "" {
+			_, pc = gen.DrawFamilyProgram(rt, env, family, rejectCounter(rec))
+		}
+		if pc == nil {
+			_, pc = gen.DrawProgram(rt, env, gen.DrawOpts{MaxMuts: 2}, rejectCounter(rec))
+		}
 		hc.Progs = append(hc.Progs, *pc)
 	}
 	emb := core.Embedded()
